@@ -30,6 +30,8 @@ class Reporter:
         self.violations = []     # replay paths
         self.samples = []
         self.nviol = 0
+        import shutil
+        shutil.rmtree(os.path.join(out_dir(pid), "replay"), ignore_errors=True)
 
     def violation(self, case_desc, feats=(), name=None):
         """Registers a candidate violation; returns True when it is an unlisted one."""
